@@ -200,6 +200,18 @@ TABLE = {
         "infinite-variation copulas excluded (constructor cost).",
         "6/C15",
     ),
+    "C04": (
+        "exploration",
+        "exhaustive lattice sweep (models x declared representations x grids x refinements x sampling methods; copula margins) of the mean and variance identities against quadrature of the model's own density",
+        "For every configuration the mean per unit time of the approximation (process drift + rate-weighted states, rates taken "
+        "both from mass() on reference cells and from the sampler law recovered as in C02) is compared with the mean of the "
+        "truncated process computed from the triplet, the declared cut-off and the density; the added variance with the "
+        "central-cell second moment (zero for finite variation); the total variance within the per-cell oscillation bound; the "
+        "same per margin of copula chains, and the copula diffusion matrix against the central-box covariance.",
+        "Lattice points only; quadrature with the x = t^8 substitution near the origin; dimension 3 left out; "
+        "infinite-variation copula diffusion matrices in a few cases (constructor cost).",
+        "6/C04",
+    ),
 }
 
 READY = []  # filled from checks/ below; a module must define PID
